@@ -174,6 +174,15 @@ def judge_owner(prog, fn, stmt, owner):
                              'another and TBB keeps applying the minimum of all live limits' % v['name'])
     if v['kind'] in ('static_local', 'global', 'static_member', 'field'):
         cfg = fn.cfg
+        vt = prog.base_type(v['ty']) or {}
+        if vt.get('ptr') and not vt.get('rec'):
+            # raw pointer owner: the previous control object must be deleted before it is overwritten
+            dels = [d for d in fn.walk() if d.k == 'CXXDeleteExpr' and d.c and ex.var_of(d.c[0]) == owner]
+            good = [d for d in dels if cfg.dominates(d, stmt)]
+            if not good:
+                return 'violation', ('owner %s is a plain pointer that is overwritten without deleting the previous control object: every earlier '
+                                     'global_control stays alive (leaked) and TBB applies the minimum of all live limits, so a later call can never '
+                                     'raise the limit again' % v['name'])
         p = cfg.pos_of(stmt)
         if p is None:
             return 'undecided', 'statement not in the CFG'
